@@ -31,6 +31,12 @@ func (r srvRaw) Bytes() []byte       { return r.b }
 
 type srvHandler struct{ mode int }
 
+// error sentinels shared by all requests and connections of the process
+var (
+	srvErrSentinel = packet.NewErrorParseTCP(packet.ErrServerFailure, "scripted sentinel")
+	srvErrZero     = &packet.ErrorParseTCP{}
+)
+
 // mode 2: the handler of mode 0, but slower than the server's write timeout
 const (
 	srvSlowHandler  = 60 * time.Millisecond
@@ -102,8 +108,19 @@ func (h srvHandler) Handle(ctx context.Context, req packet.Request) (packet.Resp
 	case cls < 4:
 		return resp, nil
 	case cls == 4:
+		// codes 4 and 0 come from sentinels: the same *ErrorParseTCP instance is returned for every
+		// such request, on every connection (the `var errX = packet.NewErrorParseTCP(...)` idiom)
+		if k == packet.ErrServerFailure {
+			return nil, srvErrSentinel
+		}
+		if k == 0 {
+			return nil, srvErrZero
+		}
 		return nil, packet.NewErrorParseTCP(k, "scripted typed error")
 	case cls == 7:
+		if k == packet.ErrServerFailure {
+			return resp, fmt.Errorf("scripted wrapped sentinel: %w", srvErrSentinel)
+		}
 		return resp, fmt.Errorf("scripted wrapped error: %w", packet.NewErrorParseTCP(k, "inner"))
 	case cls == 5:
 		if k%2 == 0 {
@@ -439,8 +456,8 @@ func (c *srvRec) Read(p []byte) (int, error) {
 	n, err := c.Conn.Read(p)
 	dl := err != nil && errors.Is(err, os.ErrDeadlineExceeded)
 	scripted := false
-	if sc, ok := c.Conn.(*srvScript); ok {
-		scripted = sc.lastScripted
+	if sc, ok := c.Conn.(interface{ lastWasScripted() bool }); ok {
+		scripted = sc.lastWasScripted()
 	}
 	c.mu.Lock()
 	if n > 0 || scripted {
@@ -694,6 +711,81 @@ func (c *srvScript) SetWriteDeadline(t time.Time) error {
 	return nil
 }
 
+func (c *srvScript) lastWasScripted() bool { return c.lastScripted }
+
+// srvFailW makes one Write of the wrapped connection fail half way: the failAt-th Write call
+// (from 0) hands only the first k bytes to the connection (ks < 0: all but the last one) and
+// returns (k, os.ErrDeadlineExceeded), as a write that times out after the peer took part of it.
+// Later Writes pass.
+type srvFailW struct {
+	net.Conn
+	failAt, ks int
+	nw         int
+	failed     atomic.Bool
+}
+
+func (c *srvFailW) Write(p []byte) (int, error) {
+	idx := c.nw
+	c.nw++
+	if idx != c.failAt {
+		return c.Conn.Write(p)
+	}
+	k := c.ks
+	if k < 0 {
+		k = len(p) - 1
+	}
+	if k > len(p) {
+		k = len(p)
+	}
+	n := 0
+	if k > 0 {
+		n, _ = c.Conn.Write(p[:k])
+	}
+	c.failed.Store(true)
+	return n, os.ErrDeadlineExceeded
+}
+func (c *srvFailW) lastWasScripted() bool {
+	if sc, ok := c.Conn.(interface{ lastWasScripted() bool }); ok {
+		return sc.lastWasScripted()
+	}
+	return false
+}
+
+// srvSentinelTid: a transaction id whose scripted class returns one of the shared error sentinels
+// (class 4 with code 4 or 0, class 7 wrapping the code-4 sentinel)
+func srvSentinelTid(r *rng, used map[uint16]bool) uint16 {
+	for {
+		var t uint16
+		switch r.intn(5) {
+		case 0, 1:
+			t = uint16(r.intn(32))<<11 | 4<<3 | 4
+		case 2, 3:
+			t = uint16(r.intn(32))<<11 | 0<<3 | 4
+		default:
+			t = uint16(r.intn(32))<<11 | 4<<3 | 7
+		}
+		if !used[t] {
+			used[t] = true
+			return t
+		}
+	}
+}
+
+// srvSentinelStream: 2..5 requests of different functions, units and transaction ids that all make
+// the handler return a shared sentinel; now and then a normal request in between
+func srvSentinelStream(r *rng) []byte {
+	var s []byte
+	used := map[uint16]bool{}
+	n := 2 + r.intn(4)
+	for i := 0; i < n; i++ {
+		s = append(s, srvLegal(r, srvFcs[r.intn(10)], srvSentinelTid(r, used), 0)...)
+		if r.intn(4) == 0 {
+			s = append(s, srvLegal(r, srvFcs[r.intn(10)], srvTid(r, false)&^4, 0)...)
+		}
+	}
+	return s
+}
+
 // ---------- a running real server ----------
 
 type srvRig struct {
@@ -806,9 +898,17 @@ type srvClient struct {
 	done chan struct{}
 }
 
-func (g *srvRig) dial() *srvClient {
+func (g *srvRig) dial() *srvClient { return g.dialW(nil) }
+
+// dialW: wf (may be nil) makes one Write of the server side fail half way
+func (g *srvRig) dialW(wf *srvFailW) *srvClient {
 	cl, sv := net.Pipe()
-	k := &srvClient{rec: newSrvRec(sv), c: cl, done: make(chan struct{})}
+	var side net.Conn = sv
+	if wf != nil {
+		wf.Conn = sv
+		side = wf
+	}
+	k := &srvClient{rec: newSrvRec(side), c: cl, done: make(chan struct{})}
 	g.lis.ch <- k.rec
 	go func() {
 		k.got, _ = io.ReadAll(cl)
